@@ -7,6 +7,7 @@ open AsynqModel AsynqModel.Generator
 def step? : Sexp → Option Step
   | .list [.atom "a", b] => b.bool?.map .await
   | .list [.atom "v", n] => n.nat?.map .value
+  | .list [.atom "ve"] => some .valueEnd          -- yield Value(END_OF_GENERATOR)
   | _ => none
 
 /-- header: `(body <step>...) (nest k)` -/
@@ -34,7 +35,7 @@ def item? : Sexp → Option Item
 
 def res? : Sexp → Option Res
   | .list [.atom "fut", .atom "none"] => some (.fut none)
-  | .list [.atom "fut", n] => n.nat?.map (fun v => .fut (some v))
+  | .list [.atom "fut", x] => (item? x).map (fun v => .fut (some v))
   | .list [.atom "item", x] => (item? x).map .item
   | .list (.atom "lst" :: xs) => (xs.mapM item?).map .lst
   | .list [.atom "raised", .atom "StopIteration"] => some (.raised .stopIteration)
@@ -67,10 +68,15 @@ def handle (id : Nat) (hdr : List Sexp) (body : List Sexp) : String :=
     let ops := impl.map (·.op)
     let model := run (init b) ops
     let corr := firstDiff model impl
-    let spec := specClause b impl
-    let specm := specClause b model
+    -- a body with a Value(END_OF_GENERATOR) item is outside the statement of C17 (Theorems/C17.lean,
+    -- `C17_marker_payload_unsatisfiable`): the correspondence is judged in full, the property only by the clauses
+    -- that still make sense there (`outsideClause`)
+    let judged := noMarker b0
+    let spec := if judged then specClause b impl else outsideClause impl
+    let specm := if judged then specClause b model else outsideClause model
     let c := match corr with | none => "ok" | some _ => "diff"
-    let d := match corr with | none => "" | some (i, s) => (s!"obs {i}: {s}".replace "\n" " ")
+    let d := (match corr with | none => "" | some (i, s) => (s!"obs {i}: {s}".replace "\n" " ")) ++
+      (if judged then "" else " [marker payload: outside C17, judged by correspondence + end-marker/await-result]")
     let f (s : String) := if s == "ok" then "ok" else "fail:" ++ s
     s!"R {id} CORR={c} SPEC={f spec} SPECM={f specm} | {d}"
   | _, _ => s!"R {id} CORR=diff SPEC=ok SPECM=ok | unparsable case"
